@@ -45,9 +45,7 @@ def collect(prop, results, rd, inv, viol, st):
     return ok
 
 
-def storeconc_part(tier, seed, rd, fxv, viol, st):
-    """StoreConc.tla: every interleaving of the program families on the design model (TLC), the model's
-    behaviours judged by LinTrace, and their schedules replayed on the real store (spec -> impl)."""
+def storeconc_family(tier, seed):
     rng = random.Random(seed + 77)
     pairs = ce.pair_family()
     fam = sc.chain_family() + ce.aba_family()
@@ -57,6 +55,16 @@ def storeconc_part(tier, seed, rd, fxv, viol, st):
         fam += pairs[:500] + [x for x in mem if len(x[1]["threads"]) == 2]
     else:
         fam += pairs + mem + ce.triple_family(rng, 25)
+    return fam
+
+
+def storeconc_part(tier, seed, rd, fxv, viol, st, prop=PROP, inv=None, fam=None, nsample=24000):
+    """StoreConc.tla: every interleaving of the program families on the design model (TLC), the model's
+    behaviours judged by LinTrace, and their schedules replayed on the real store (spec -> impl).
+    `inv`: the property formulas of LinTrace that give the verdict on the REAL histories (the caller's own)."""
+    inv = inv or INV
+    if fam is None:
+        fam = storeconc_family(tier, seed)
     mprogs, src = [], {}
     for name, p in fam:
         m = sc.model_program(name, p)
@@ -73,7 +81,7 @@ def storeconc_part(tier, seed, rd, fxv, viol, st):
         info["design_violation"] = r.violation
     if not beh:
         raise v.ToolError("StoreConc produced no behaviour: " + r.out[-600:])
-    sel = sc.sample(beh, 24000 if tier == "quick" else 2000000, seed)
+    sel = sc.sample(beh, nsample if tier == "quick" else 2000000, seed)
     # (a) the model's own behaviours, judged by the oracle that judges the implementation
     files = sc.write_model_histories(rd, "sc", mprogs, sel, chunk=4000)
     rejected = 0
@@ -104,7 +112,7 @@ def storeconc_part(tier, seed, rd, fxv, viol, st):
         del g["group"]
     info.update({"replayed": len(items), "conforming": conform, "deviations": dev, "deviation_examples": examples})
     # the verdict on what the real store did is LinTrace's
-    collect(PROP, res, rd, INV, viol, st)
+    collect(prop, res, rd, inv, viol, st)
     return info
 
 
